@@ -416,6 +416,18 @@ func (cs *ContractSet) parseLines(fname string, lines []struct {
 				cs.TypeDecls = append(cs.TypeDecls, td)
 			}
 			cur, curLemma = nil, nil
+		case "jsonname":
+			// jsonname pkg.Type.Field "name" // Cxx: the member of the JSON object this field is read from / written to is
+			// the documented one (the wire name is part of the API: a client's key must not be silently ignored)
+			full := rest
+			rest = stripComment(rest)
+			w1, r1 := splitWord(rest)
+			td := &TypeDecl{Kind: word, Name: w1, Spec: strings.Trim(strings.TrimSpace(r1), "\""), pkg: pkg, File: fname, Line: l.line}
+			if len(full) > len(rest) {
+				td.Props = rePropID.FindAllString(full[len(rest):], -1)
+			}
+			cs.TypeDecls = append(cs.TypeDecls, td)
+			cur, curLemma = nil, nil
 		case "jsonfields":
 			// jsonfields pkg.Type // Cxx: the JSON encoding of the struct carries every field (exported, not tagged "-",
 			// names pairwise distinct): the side condition under which its encode/decode round trip can be assumed
